@@ -96,38 +96,31 @@ else:
     demo_dir = f"{src}/demo"
     conf["demo"] = {"cmd": demo_cmd}
     if demo_cmd:
-        # the agent's worktree path appears in commands and in demo Cargo.toml path deps
+        # the agent's worktree path appears in the command; its demo files stay where they are
         agent_wt = f"/tmp/seed-{pid}"
-        local_demo = f"{root}/demo-{pid}"
-        shutil.rmtree(local_demo, ignore_errors=True)
-        if os.path.isdir(demo_dir):
-            shutil.copytree(demo_dir, local_demo, ignore=shutil.ignore_patterns("target"))
-            for dp, _, fs in os.walk(local_demo):
-                for fn in fs:
-                    if fn.endswith((".toml", ".sh", ".rs", ".txt", ".md")):
-                        pth = os.path.join(dp, fn)
-                        try:
-                            s = open(pth).read()
-                        except Exception:
-                            continue
-                        if agent_wt in s or demo_dir in s:
-                            open(pth, "w").write(s.replace(demo_dir, local_demo).replace(agent_wt, repo))
-        cmd = demo_cmd.replace(demo_dir, local_demo).replace(agent_wt, repo)
+        cmd = demo_cmd.split("#")[0].strip().replace(agent_wt, repo)
+        # run scripts (RUN.sh etc.) through a copy with the worktree path rewritten
+        for m in re.finditer(r"(/tmp/seedout-%s/demo/[\w.\-]+\.sh)" % pid, cmd):
+            sp = m.group(1)
+            if os.path.exists(sp):
+                txt = open(sp).read().replace(agent_wt, repo)
+                lp = f"{root}/demo-{pid}-{os.path.basename(sp)}"
+                open(lp, "w").write(txt)
+                cmd = cmd.replace(sp, lp)
         conf["demo"]["cmd_rerun"] = cmd
-        # demo test files that live in the crate's tests/ dir: copy any *.rs named in the command
-        for m in re.finditer(r"--test\s+(\w+)", cmd):
-            tname = m.group(1)
-            for dp, _, fs in os.walk(local_demo):
-                if tname + ".rs" in fs:
-                    for c in crates:
-                        if os.path.isdir(f"{repo}/{c}/tests"):
-                            shutil.copy(os.path.join(dp, tname + ".rs"), f"{repo}/{c}/tests/{tname}.rs")
-        rc1, out1, s1 = sh(cmd, cwd=repo, timeout=3600)
+
+        def verdict(out):
+            bad = ("test result: FAILED" in out) or ("error: test failed" in out) or ("panicked at" in out) or ("FAIL" in out and "test result: ok" not in out)
+            good = "test result: ok" in out or "PASS" in out
+            return "fails" if bad else ("passes" if good else "unknown")
+
+        rc1, out1, s1 = sh(f"bash -c {json.dumps(cmd)}", cwd=repo, timeout=5400)
         sh(f"git apply -R {patch}", cwd=repo)
-        rc2, out2, s2 = sh(cmd, cwd=repo, timeout=3600)
+        rc2, out2, s2 = sh(f"bash -c {json.dumps(cmd)}", cwd=repo, timeout=5400)
         sh(f"git apply {patch}", cwd=repo)
-        conf["demo"].update({"fails_with_patch": rc1 != 0, "passes_without_patch": rc2 == 0, "with_tail": out1[-800:], "without_tail": out2[-400:]})
-        print(f"demo: with patch rc={rc1}, without rc={rc2}")
+        sh("git clean -fdq -e target", cwd=repo)
+        conf["demo"].update({"with_patch": verdict(out1), "without_patch": verdict(out2), "with_tail": out1[-1200:], "without_tail": out2[-500:]})
+        print(f"demo: with patch {verdict(out1)}, without {verdict(out2)}")
     # 3. my checks
     conf["checks"] = {}
     for c in opt["--checks"].split(","):
